@@ -12,7 +12,7 @@ use trust_runtime::memory::{InstanceId, MemoryLocation, VariableStorage};
 use trust_runtime::value::{Duration, RefSegment, Value, ValueRef};
 use trust_runtime::Runtime;
 
-use super::gen::{Lit, SrcFile, Step, Write};
+use super::gen::{expand, BuildHistory, FileOp, Lit, MTime, SrcFile, Step, Write};
 use crate::engine::{catch, sha_hex};
 
 #[derive(Clone, Debug, Serialize, Deserialize)]
@@ -26,6 +26,9 @@ pub struct ChildCase {
     /// `bundle_builder::build_program_stbc` is run on it as one more compile entry point
     #[serde(default)]
     pub bundle_sources: Option<String>,
+    /// successive builds in one bundle root (projects on disk only)
+    #[serde(default)]
+    pub history: Option<BuildHistory>,
 }
 
 /// A retain store attached to the runtime while the trace runs.
@@ -97,6 +100,15 @@ pub struct Rep {
     /// SHA-256 of the program.stbc `bundle_builder::build_program_stbc` wrote ("" = not run)
     #[serde(default)]
     pub bundle: String,
+    /// build history: SHA-256 of program.stbc after the last build of the history, of a single
+    /// build of the same final sources into a fresh bundle root, and of the history result without
+    /// its DEBUG_STRING_TABLE (the only section that carries the child-specific directory)
+    #[serde(default)]
+    pub hist: String,
+    #[serde(default)]
+    pub hist_fresh: String,
+    #[serde(default)]
+    pub hist_nodebug: String,
     /// `full` mode only: the artefacts as text
     #[serde(default)]
     pub full: Option<Full>,
@@ -114,6 +126,8 @@ pub struct Full {
     pub restored: Vec<String>,
     #[serde(default)]
     pub bundle_error: String,
+    #[serde(default)]
+    pub hist_log: Vec<String>,
 }
 
 #[derive(Clone, Debug, Serialize, Deserialize)]
@@ -463,6 +477,150 @@ fn fmt_event(e: &RuntimeEvent) -> String {
     format!("{e:?}")
 }
 
+fn set_mtime(path: &std::path::Path, t: std::time::SystemTime) {
+    use std::os::unix::ffi::OsStrExt;
+    let Ok(d) = t.duration_since(std::time::UNIX_EPOCH) else {
+        return;
+    };
+    let ts = libc::timespec { tv_sec: d.as_secs() as libc::time_t, tv_nsec: d.subsec_nanos() as _ };
+    let times = [ts, ts];
+    if let Ok(c) = std::ffi::CString::new(path.as_os_str().as_bytes()) {
+        // SAFETY: valid NUL-terminated path and a two-element timespec array
+        unsafe {
+            libc::utimensat(libc::AT_FDCWD, c.as_ptr(), times.as_ptr(), 0);
+        }
+    }
+}
+
+fn apply_mtime(path: &std::path::Path, m: MTime, artefact: &std::path::Path) {
+    let now = std::time::SystemTime::now();
+    match m {
+        MTime::Now => {}
+        MTime::Older => set_mtime(path, now - std::time::Duration::from_secs(1000)),
+        MTime::Newer => set_mtime(path, now + std::time::Duration::from_secs(1000)),
+        MTime::EqualArtefact => {
+            if let Ok(t) = std::fs::metadata(artefact).and_then(|m| m.modified()) {
+                set_mtime(path, t);
+            }
+        }
+    }
+}
+
+fn nodebug_digest(bytes: &[u8]) -> String {
+    let mut acc = String::new();
+    for (id, payload) in section_slices(bytes) {
+        if id != 0x000A {
+            acc.push_str(&format!("{id}:{};", sha_hex(payload)));
+        }
+    }
+    sha_hex(acc.as_bytes())
+}
+
+/// Successive builds in one bundle root. The state before the last build is exactly the
+/// project's files; returns (digest after the history, digest of a fresh build, digest without
+/// debug strings, log).
+fn run_history(case: &ChildCase, h: &BuildHistory, scratch: &str) -> (String, String, String, Vec<String>) {
+    use trust_runtime::bundle_builder::build_program_stbc;
+    let mut log = Vec::new();
+    let root = std::path::Path::new(scratch).join("hist");
+    let _ = std::fs::remove_dir_all(&root);
+    let src = root.join("src");
+    let _ = std::fs::create_dir_all(&src);
+    let artefact = root.join("program.stbc");
+    let name = |i: usize| -> std::path::PathBuf {
+        let base = case.files.get(i).and_then(|f| f.path.as_deref()).and_then(|p| p.rsplit('/').next()).unwrap_or("f.st").to_string();
+        src.join(base)
+    };
+    let extra = |k: u8| src.join(format!("zz_extra_{k}.st"));
+    let alt_text = |i: usize| format!("{}\nFUNCTION AltFn{i} : DINT\nAltFn{i} := DINT#{i};\nEND_FUNCTION\n", case.files[i].text);
+    let n = case.files.len();
+    let mut last_ok = false;
+    for (si, step) in h.steps.iter().enumerate() {
+        let last = si + 1 == h.steps.len();
+        let mut policy = MTime::Now;
+        for op in &step.ops {
+            match op {
+                FileOp::Write { file, alt, mtime } if !last && *file < n => {
+                    let p = name(*file);
+                    let _ = std::fs::write(&p, if *alt { alt_text(*file) } else { case.files[*file].text.clone() });
+                    apply_mtime(&p, *mtime, &artefact);
+                    log.push(format!("step {si}: write #{file} alt={alt} mtime={mtime:?}"));
+                }
+                FileOp::WriteExtra { k, mtime } if !last => {
+                    let p = extra(*k);
+                    let _ = std::fs::write(&p, format!("FUNCTION ExtraFn{k} : DINT\nExtraFn{k} := DINT#{k};\nEND_FUNCTION\n"));
+                    apply_mtime(&p, *mtime, &artefact);
+                    log.push(format!("step {si}: write extra {k} mtime={mtime:?}"));
+                }
+                FileOp::DeleteExtra { k } if !last => {
+                    let _ = std::fs::remove_file(extra(*k));
+                    log.push(format!("step {si}: delete extra {k}"));
+                }
+                FileOp::Delete { file } if !last && *file < n => {
+                    let _ = std::fs::remove_file(name(*file));
+                    log.push(format!("step {si}: delete #{file}"));
+                }
+                FileOp::SetMtime { file, mtime } => {
+                    if last {
+                        policy = *mtime;
+                    } else if *file < n {
+                        apply_mtime(&name(*file), *mtime, &artefact);
+                        log.push(format!("step {si}: mtime #{file} {mtime:?}"));
+                    }
+                }
+                FileOp::TouchArtefact { mtime } => {
+                    if artefact.exists() {
+                        match mtime {
+                            MTime::Now => set_mtime(&artefact, std::time::SystemTime::now()),
+                            m => apply_mtime(&artefact, *m, &artefact),
+                        }
+                        log.push(format!("step {si}: touch artefact {mtime:?}"));
+                    }
+                }
+                _ => {}
+            }
+        }
+        if last {
+            // complete the final state: every project file with its final text, no extras
+            for i in 0..n {
+                let p = name(i);
+                let same = std::fs::read_to_string(&p).map(|t| t == case.files[i].text).unwrap_or(false);
+                if !same {
+                    let _ = std::fs::write(&p, &case.files[i].text);
+                    apply_mtime(&p, policy, &artefact);
+                    log.push(format!("step {si}: final text for #{i} mtime={policy:?}"));
+                }
+            }
+            for k in 0..3u8 {
+                if extra(k).exists() {
+                    let _ = std::fs::remove_file(extra(k));
+                    log.push(format!("step {si}: delete extra {k}"));
+                }
+            }
+        }
+        let r = build_program_stbc(&root, None);
+        last_ok = r.is_ok();
+        log.push(format!("step {si}: build -> {}", if r.is_ok() { "ok".to_string() } else { format!("error: {:#}", r.err().unwrap()).chars().take(120).collect() }));
+    }
+    let hist_bytes = std::fs::read(&artefact);
+    let fresh_root = std::path::Path::new(scratch).join("hist-fresh");
+    let _ = std::fs::remove_dir_all(&fresh_root);
+    let _ = std::fs::create_dir_all(&fresh_root);
+    let fresh = match build_program_stbc(&fresh_root, Some(&src)) {
+        Ok(rep) => std::fs::read(&rep.program_path).map(|b| sha_hex(&b)).unwrap_or_else(|_| "ERR:read".into()),
+        Err(_) => "ERR".into(),
+    };
+    let (hist, nodebug) = match hist_bytes {
+        Ok(b) => (sha_hex(&b), nodebug_digest(&b)),
+        Err(_) => ("ABSENT".to_string(), "ABSENT".to_string()),
+    };
+    // a final build that is rejected yields no container (whatever an earlier build left behind)
+    if !last_ok {
+        return ("ERR".to_string(), fresh, "ERR".to_string(), log);
+    }
+    (hist, fresh, nodebug, log)
+}
+
 fn run_rep(case: &ChildCase, full: bool, public_api: bool, rep_index: usize, ctx: &RunEnv) -> Rep {
     let mut rep = Rep::default();
     let mut fl = Full::default();
@@ -656,6 +814,13 @@ fn run_rep(case: &ChildCase, full: bool, public_api: bool, rep_index: usize, ctx
                     fl.bundle_error = format!("{e:#}");
                 }
             }
+            if let Some(h) = &case.history {
+                let (hist, fresh, nodebug, log) = run_history(case, h, &ctx.scratch);
+                rep.hist = hist;
+                rep.hist_fresh = fresh;
+                rep.hist_nodebug = nodebug;
+                fl.hist_log = log;
+            }
         }
     }
     rep.fault_count = faults.len();
@@ -678,8 +843,17 @@ pub struct RunEnv {
 }
 
 pub fn run_case(case: &ChildCase, full: bool, pause_ms: u64, public_api: bool, env: &RunEnv) -> CaseResult {
+    // the compiler sees the padded texts
+    let expanded = ChildCase {
+        files: case.files.iter().map(|f| SrcFile { path: f.path.clone(), text: expand(f), pad: 0 }).collect(),
+        ..case.clone()
+    };
+    let case = &expanded;
+    let total: usize = case.files.iter().map(|f| f.text.len()).sum();
+    // the large class (>= 64 KiB of text, fewer than 32 files) is compiled three times per child
+    let n_reps = if total >= 64 * 1024 && case.files.len() < 32 { 3 } else { 2 };
     let mut reps = Vec::new();
-    for k in 0..2 {
+    for k in 0..n_reps {
         if k == 1 && pause_ms > 0 {
             std::thread::sleep(std::time::Duration::from_millis(pause_ms));
         }
